@@ -300,6 +300,22 @@ func propC14(c lcCase, o *hx.Obs) *hx.Failure {
 		}
 	}
 	mu.Unlock()
+	// searches whose result is not out yet are stopped by this final stop (a depth-limited search after a
+	// ponder search with ponderhit is not waited for above): they are not "undisturbed"
+	if n, _ := resultsCount(d); true {
+		mu.Lock()
+		acc := 0
+		for k := range searches {
+			if searches[k].rejected {
+				continue
+			}
+			if acc >= n {
+				searches[k].disturbed = true
+			}
+			acc++
+		}
+		mu.Unlock()
+	}
 	finalStop := time.Now()
 	if !callWithWatchdog(s.StopSearch, watchdog) {
 		return hung("StopSearch", len(c.Ops))
